@@ -424,7 +424,7 @@ func unescape(lit []byte) string {
 	var str strings.Builder
 
 	for i := 0; i < len(lit); i++ {
-		if lit[i] == '\\' {
+		if lit[i] == '\\' && i+1 < len(lit) {
 			switch lit[i+1] {
 			case 'n':
 				str.WriteRune('\n')
